@@ -932,6 +932,27 @@ var c04Fixed = []string{"\"'\r\n\"", "'\r\n'", "\"\r\n\"", "\"a\r\n\"", "\"a\r\n
 	"-'a'", "-nil", "-true", "not 1", "!nil", "+'a'", "-AI", "-(-(-I))", "I8 + U64", "F32 * I64", "U64 - 1", "I64 * I64", "U8 / 0", "F64 % 2", "S + 1", "1 + S", "S + S2 + 1", "AI + AI", "MI + 1",
 	"S contains 1", "1 startsWith 'a'", "nil endsWith nil", "S matches S", "S matches '('", "S matches AI", "len(S matches 'a')"}
 
+// operands WITHOUT a static type (the literal nil, conditionals of nils, nil-safe accesses of unknown members) under every
+// binary operator, membership in every kind of literal array / range, and every postfix form: each stage that asks such
+// an operand for its type has to cope with "no type"
+func init() {
+	lefts := []string{"nil", "(B ? nil : nil)", "P?.Zz", "St?.Nick", "Zz?.Nick", "P?.Next?.Zz", "(nil)", "[nil][0]"}
+	rights := []string{`["a", "b"]`, `["a"]`, "[1, 2]", `[1, "a"]`, "[]", "[nil]", "1..3", "AS", "AI", "MI", `"abc"`, "nil", `{"a": 1}`, "[1.5]", "[true]"}
+	for _, l := range lefts {
+		for _, r := range rights {
+			c04Fixed = append(c04Fixed, l+" in "+r, l+" not in "+r)
+		}
+		for _, tail := range []string{` matches "a"`, ` contains "a"`, ` startsWith "a"`, ` endsWith "a"`, " + 1", " - 1", " * 2", " / 2", " % 2", " ** 2", " == nil", " != 1", " < 1", " >= 1",
+			" and true", " or false", " ? 1 : 2", "[0]", "[1:2]", ".x", "?.x", ".x()", "?.x()", "..3", ` + "s"`} {
+			c04Fixed = append(c04Fixed, l+tail)
+		}
+		for _, head := range []string{"-", "!", "not ", "+", "len(", "all(", "1 + ", `"a" matches `, "1..", "AI[", "Add(1, "} {
+			closer := map[string]string{"len(": ")", "all(": ", {true})", "AI[": "]", "Add(1, ": ")"}[head]
+			c04Fixed = append(c04Fixed, head+l+closer)
+		}
+	}
+}
+
 // deep nesting at the 64 KiB limit: name -> source
 var c04DeepFamilies = []string{"minus", "paren", "dots", "plus", "closures", "unterminated", "digits", "brackets", "not", "plusid", "cond", "calls", "index", "maps", "floatdigits", "string", "strcat", "random", "spaces", "quotes"}
 
